@@ -40,7 +40,7 @@ ANCHORS = ['Table.__eq__', 'Table.descriptive_equality', 'Table._data_equality',
 REQUIRED = ['tables_with_ragged_metadata', 'derived_exports_compared', 'pairs_compared', 'cell_queries_on_fresh_layout', 'derived_vs_rebuilt', 'accessor_interleavings',
             'single_difference_pairs', 'tiny_value_difference_pairs',
             'exports_compared_tsv', 'exports_compared_json',
-            'exports_compared_hdf5', 'route_stored_zeros_input',
+            'exports_compared_hdf5', 'route_stored_zeros_input', 'route_stored_zero_written',
             'route_unsorted_input', 'route_sort_inverse',
             'route_transpose_twice', 'route_subsample_full',
             'layout_states_mixed_in_family']
@@ -108,6 +108,26 @@ def routes(ctx, r, spec):
                                               **kw()))
         add('stored-zeros-csc', lambda: Table(with_zeros(D, 'csc', r), o, s,
                                               **kw()))
+        # ... and tables in which a zero cell is *stored*: built with a value
+        # there, which is then overwritten with 0 through the public
+        # matrix_data handle (a different cell in each of the two routes)
+        zr, zc = np.nonzero(D == 0)
+
+        def stored_zero_written(q):
+            D2 = D.copy()
+            i, j = int(zr[q]), int(zc[q])
+            D2[i, j] = 7.0
+            t = Table(D2, o, s, **kw())
+            m = t.matrix_data.tocsr()
+            if m is not t.matrix_data:
+                return Table(D.copy(), o, s, **kw())
+            m.sort_indices()
+            lo, hi = m.indptr[i], m.indptr[i + 1]
+            pos = lo + int(np.searchsorted(m.indices[lo:hi], j))
+            m.data[pos] = 0.0
+            return t
+        add('stored-zero-written-first', lambda: stored_zero_written(0))
+        add('stored-zero-written-last', lambda: stored_zero_written(-1))
     add('unsorted-csr-input', lambda: Table(unsorted_csr(D), o, s, **kw()))
     # ... and a table whose own matrix was left unsorted through the public
     # matrix_data handle (the constructor may order its copy)
@@ -415,6 +435,8 @@ def run_case(ctx, index):
         ctx.cls('route', name)
         if name.startswith('stored-zeros'):
             ctx.count('route_stored_zeros_input')
+        if name.startswith('stored-zero-written'):
+            ctx.count('route_stored_zero_written')
         if name == 'unsorted-csr':
             ctx.count('route_unsorted_input')
         if name == 'sort-inverse':
@@ -431,7 +453,17 @@ def run_case(ctx, index):
     desc = {'table': spec.describe(), 'routes': [n for n, _ in fam]}
     # every member really has the content (guards the harness itself)
     ref = snap.snap_spec(spec)
+    want_nz = sorted((spec.obs_ids[i], spec.samp_ids[j])
+                     for i, j in zip(*np.nonzero(spec.D)))
     for name, t in fam:
+        # the cells a member lists as non-zero are a per-cell answer too
+        # (asked before anything else has looked at the member)
+        if index % 2:
+            listed = sorted((str(a), str(b)) for a, b in t.nonzero())
+            if listed != want_nz:
+                raise Violation('C16/cell-query-differs/' + name, 'nonzero() '
+                                'lists %r, the non-zero cells are %r; case=%r'
+                                % (listed, want_nz, desc))
         d = snap.diff(snap.snap(t), ref)
         if d:
             raise Violation('C16/route-changed-content/' + name, '%s; '
